@@ -72,9 +72,10 @@ func genConfig(t *rapid.T) Config {
 				cfg.Delay[i] = by + rapid.IntRange(0, 45).Draw(t, "lateSpread")
 			}
 		}
-		if Chance(t, "earlyMemberCrashes?", 30) {
-			cfg.Crashes = append(cfg.Crashes, Crash{Member: early, AfterWrites: rapid.IntRange(1, 8).Draw(t, "earlyAfterWrites"),
-				RestartAfter: rapid.IntRange(100, 200).Draw(t, "earlyRestartAfter")})
+		if Chance(t, "earlyMemberCrashes?", 60) {
+			// (its first writes are the ones that publish its signature)
+			cfg.Crashes = append(cfg.Crashes, Crash{Member: early, AfterWrites: rapid.IntRange(1, 3).Draw(t, "earlyAfterWrites"),
+				RestartAfter: rapid.IntRange(100, 220).Draw(t, "earlyRestartAfter")})
 		}
 	}
 	nCrash := Weighted(t, "nCrash", []int{45, 30, 15, 10})
